@@ -26,6 +26,7 @@ def gen_cfg(quick, seed):
         hashb, signb, srcb, fieldb, edb = range(256), range(520), range(336), range(64), range(880)
     return """SPECIFICATION Spec
 CONSTANTS
+  DataLens = {0, 1, 2, 3, 4, 5, 6, 7, 8, 9, 10, 11, 12, 13, 14, 15, 16, 17, 18, 19, 20, 21, 22, 23, 24, 25, 26, 27, 28, 29, 30, 31, 32, 33, 34, 35, 36, 37, 38, 39, 40, 41, 42, 43, 44, 45, 46, 47, 48, 49, 50, 51, 52, 53, 54, 55, 56, 57, 58, 59, 60, 61, 62, 63, 64}
   HashBits = %s
   SignBits = %s
   SourceBits = %s
@@ -100,6 +101,10 @@ def run(ctx):
     require(len(ctxs) == 6 and min(ctxs.values()) > 100, "pool contexts not all exercised: %s" % ctxs, ctx=ctx)
     need = ctxs.get("orig-pending", 0) + ctxs.get("orig-unmarked", 0) + ctxs.get("other-pending", 0)
     require(ctx_ok == need, "the real pool was not in the intended context in %d of %d events" % (need - ctx_ok, need), ctx=ctx)
+    for how in ("long", "lead0", "wrap1"):
+        require(muts.get(("eth", "reframe:" + how), 0) > 10 and muts.get(("eth", "reframe-data:" + how), 0) > 10,
+                "re-framing %s was hardly applied" % how, ctx=ctx)
+    require(sum(v for (k, m), v in muts.items() if m.startswith("textual:")) > 20, "textual variations not exercised", ctx=ctx)
     require(len(muts) >= 60, "few mutation classes exercised (%d)" % len(muts), ctx=ctx)
     require(events == nev, "events judged (%d) != events recorded (%d)" % (events, nev), ctx=ctx)
     coverage = {
@@ -109,7 +114,9 @@ def run(ctx):
                 "switch: every single-field change of a hashed/compared field (stale hash, re-hashed, re-hashed and re-signed, by "
                 "the owner or another key), chain id of another chain/height (incl. replay), single-bit flips of %s of Hash, "
                 "Sign, Source, of the content fields and of the RLP payload, nil/random/foreign/malleated signatures, "
-                "damaged encodings (case, garbage, truncated, trailing), payloads signed for another chain or without EIP-155, "
+                "damaged encodings (case, garbage, truncated, trailing), re-framings of every item of the signed payload that keep the decoded "
+                "content (explicit-length form for sizes <= 55, leading zero in a length, single byte wrapped as a string; call data of every "
+                "length 0..64), textual variations of native fields (white space, key order, number format, letter case), payloads signed for another chain or without EIP-155, "
                 "and every unauthenticated field; every case offered in six pool contexts (empty pool, honest original pending / executed in a "
                 "block / executed and rolled back, another transaction of the sender pending, the same transaction delivered before; %s); "
                 "each instantiated %d times with fresh real keys and contents. "
